@@ -13,6 +13,9 @@ prog <caps> <rootLo>:<rootHi> <hex src> F=<facts> <annotated AST>
 e2e <rootLo>:<rootHi> <hex src> X=<expected output> F=<facts> <annotated AST>
       -> counts=… limit=<… at Gen.Caps.defaults> warn=<n>[@lo:hi:severity] other=<n|*> plan=<none|some>
 crash <hex src>   -> ok
+summ <budget> <f> <l> <callees;reads;writes;stmts>*f
+      -> <available>:<callees>:<reads>:<writes>:<class>:<body class> per function | panic
+         `Summary.compute` (the model's own scheduling + `runGlobal`) on these direct facts; lists sorted
 F=<functions>,<locals>,<scopes>,<statements>,<calls>;<locals_len of every function>
 ```
 -/
@@ -79,6 +82,42 @@ def progAnswer (caps : Caps) (rootSpan : String) (facts : String) (ast : List St
           else base
   | _, _, _ => "bad-op"
 
+/-! #### `summ`: the summary fixpoint on given direct facts -/
+
+def idsOf (s : String) : Option (List Nat) :=
+  if s = "-" then some [] else nats (s.splitOn ",")
+
+def directOf (s : String) : Option Summary.Direct :=
+  match s.splitOn ";" with
+  | [c, r, w, st] => do
+      let stmts ← idsOf st
+      if stmts.any (· > 2) then none
+      pure { callees := ← idsOf c, reads := ← idsOf r, writes := ← idsOf w, stmts := stmts }
+  | _ => none
+
+def idsStr (l : List Nat) : String :=
+  if l.isEmpty then "-" else ",".intercalate ((l.mergeSort (· ≤ ·)).map toString)
+
+def summStr (s : Summary.Summ) : String :=
+  s!"{if s.available then 1 else 0}:{idsStr s.callees}:{idsStr s.reads}:{idsStr s.writes}:{s.cls}:{s.body}"
+
+/-- More sweeps than any component can make: every changing sweep pays at least one event out of
+the room `f·(f + 2l + 2)` (`Props/C18.lean`, `summarize_fuel_irrelevant`); duplicates in the direct
+lists (malformed requests) can only shorten the run. -/
+def summFuel (f l : Nat) : Nat := f * (f + 2 * l + 2) + 1
+
+def summAnswer (ws : List String) : String :=
+  match ws with
+  | b :: f :: l :: fns =>
+      match b.toNat?, f.toNat?, l.toNat?, fns.mapM directOf with
+      | some budget, some nf, some nl, some ds =>
+          if ds.length ≠ nf then "bad-op" else
+          match Summary.compute ds budget (summFuel nf nl) with
+          | none => "panic"
+          | some st => if st.isEmpty then "-" else " ".intercalate (st.map summStr)
+      | _, _, _, _ => "bad-op"
+  | _ => "bad-op"
+
 def step (_ : Unit) (line : String) : Unit × String :=
   let ws := words line
   let ans :=
@@ -103,6 +142,7 @@ def step (_ : Unit) (line : String) : Unit × String :=
         match nats (rest.take 11) >>= capsOf, rest.drop 11 with
         | some caps, sp :: _src :: facts :: ast => progAnswer caps sp facts ast false
         | _, _ => "bad-op"
+    | "summ" :: rest => summAnswer rest
     | ["crash", _src] => "ok"   -- the model's pipeline is total: no program makes it panic
     | "e2e" :: sp :: _src :: _x :: facts :: ast => progAnswer Gen.Caps.defaults sp facts ast true
     | _ => "bad-op"
